@@ -3,37 +3,37 @@ use super::prelude::*;
 use super::generic;
 use crate::{Des, TdesEde2, TdesEde3, TdesEee2, TdesEee3};
 
-//@ harness name=des_debug prop=C19 tier=quick bits=1024 est=15 desc="Debug of Des on an arbitrary state: constant text starting with the type identifier"
+//@ harness name=des_debug prop=C19 tier=quick bits=1024 est=10 desc="Debug of Des on an arbitrary state: constant text starting with the type identifier"
 g_debug!(des_debug, Des, "Des", generic::always);
-//@ harness name=tdes_ede3_debug prop=C19 tier=quick bits=3072 est=15 desc="Debug of TdesEde3 on an arbitrary state: constant text starting with the type identifier"
+//@ harness name=tdes_ede3_debug prop=C19 tier=quick bits=3072 est=10 desc="Debug of TdesEde3 on an arbitrary state: constant text starting with the type identifier"
 g_debug!(tdes_ede3_debug, TdesEde3, "TdesEde3", generic::always);
-//@ harness name=tdes_ede2_debug prop=C19 tier=quick bits=2048 est=10 desc="Debug of TdesEde2 on an arbitrary state: constant text starting with the type identifier"
+//@ harness name=tdes_ede2_debug prop=C19 tier=quick bits=2048 est=15 desc="Debug of TdesEde2 on an arbitrary state: constant text starting with the type identifier"
 g_debug!(tdes_ede2_debug, TdesEde2, "TdesEde2", generic::always);
-//@ harness name=tdes_eee3_debug prop=C19 tier=quick bits=3072 est=15 desc="Debug of TdesEee3 on an arbitrary state: constant text starting with the type identifier"
+//@ harness name=tdes_eee3_debug prop=C19 tier=quick bits=3072 est=10 desc="Debug of TdesEee3 on an arbitrary state: constant text starting with the type identifier"
 g_debug!(tdes_eee3_debug, TdesEee3, "TdesEee3", generic::always);
-//@ harness name=tdes_eee2_debug prop=C19 tier=quick bits=2048 est=10 desc="Debug of TdesEee2 on an arbitrary state: constant text starting with the type identifier"
+//@ harness name=tdes_eee2_debug prop=C19 tier=quick bits=2048 est=15 desc="Debug of TdesEee2 on an arbitrary state: constant text starting with the type identifier"
 g_debug!(tdes_eee2_debug, TdesEee2, "TdesEee2", generic::always);
 
 //@ harness name=des_algname prop=C19 tier=quick bits=0 est=15 desc="AlgorithmName of Des names the algorithm"
 g_algname!(des_algname, Des, ["des"]);
-//@ harness name=tdes_ede3_algname prop=C19 tier=quick bits=0 est=20 desc="AlgorithmName of TdesEde3 names algorithm and variant"
+//@ harness name=tdes_ede3_algname prop=C19 tier=quick bits=0 est=15 desc="AlgorithmName of TdesEde3 names algorithm and variant"
 g_algname!(tdes_ede3_algname, TdesEde3, ["des", "ede3"]);
-//@ harness name=tdes_ede2_algname prop=C19 tier=quick bits=0 est=20 desc="AlgorithmName of TdesEde2 names algorithm and variant"
+//@ harness name=tdes_ede2_algname prop=C19 tier=quick bits=0 est=15 desc="AlgorithmName of TdesEde2 names algorithm and variant"
 g_algname!(tdes_ede2_algname, TdesEde2, ["des", "ede2"]);
-//@ harness name=tdes_eee3_algname prop=C19 tier=quick bits=0 est=20 desc="AlgorithmName of TdesEee3 names algorithm and variant"
+//@ harness name=tdes_eee3_algname prop=C19 tier=quick bits=0 est=15 desc="AlgorithmName of TdesEee3 names algorithm and variant"
 g_algname!(tdes_eee3_algname, TdesEee3, ["des", "eee3"]);
-//@ harness name=tdes_eee2_algname prop=C19 tier=quick bits=0 est=20 desc="AlgorithmName of TdesEee2 names algorithm and variant"
+//@ harness name=tdes_eee2_algname prop=C19 tier=quick bits=0 est=15 desc="AlgorithmName of TdesEee2 names algorithm and variant"
 g_algname!(tdes_eee2_algname, TdesEee2, ["des", "eee2"]);
 
-//@ harness name=des_zeroize prop=C16 tier=quick bits=1024 variants=des+zeroize est=15 desc="drop of an arbitrary-state Des leaves every byte of its storage zero"
+//@ harness name=des_zeroize prop=C16 tier=quick bits=1024 variants=des+zeroize est=10 desc="drop of an arbitrary-state Des leaves every byte of its storage zero"
 g_zeroize!(des_zeroize, Des, generic::always, generic::none);
-//@ harness name=tdes_ede3_zeroize prop=C16 tier=quick bits=3072 variants=des+zeroize est=35 desc="drop of an arbitrary-state TdesEde3 leaves every byte of its storage zero"
+//@ harness name=tdes_ede3_zeroize prop=C16 tier=quick bits=3072 variants=des+zeroize est=30 desc="drop of an arbitrary-state TdesEde3 leaves every byte of its storage zero"
 g_zeroize!(tdes_ede3_zeroize, TdesEde3, generic::always, generic::none);
-//@ harness name=tdes_ede2_zeroize prop=C16 tier=quick bits=2048 variants=des+zeroize est=25 desc="drop of an arbitrary-state TdesEde2 leaves every byte of its storage zero"
+//@ harness name=tdes_ede2_zeroize prop=C16 tier=quick bits=2048 variants=des+zeroize est=20 desc="drop of an arbitrary-state TdesEde2 leaves every byte of its storage zero"
 g_zeroize!(tdes_ede2_zeroize, TdesEde2, generic::always, generic::none);
-//@ harness name=tdes_eee3_zeroize prop=C16 tier=quick bits=3072 variants=des+zeroize est=35 desc="drop of an arbitrary-state TdesEee3 leaves every byte of its storage zero"
+//@ harness name=tdes_eee3_zeroize prop=C16 tier=quick bits=3072 variants=des+zeroize est=25 desc="drop of an arbitrary-state TdesEee3 leaves every byte of its storage zero"
 g_zeroize!(tdes_eee3_zeroize, TdesEee3, generic::always, generic::none);
-//@ harness name=tdes_eee2_zeroize prop=C16 tier=quick bits=2048 variants=des+zeroize est=25 desc="drop of an arbitrary-state TdesEee2 leaves every byte of its storage zero"
+//@ harness name=tdes_eee2_zeroize prop=C16 tier=quick bits=2048 variants=des+zeroize est=20 desc="drop of an arbitrary-state TdesEee2 leaves every byte of its storage zero"
 g_zeroize!(tdes_eee2_zeroize, TdesEee2, generic::always, generic::none);
 
 // Abstractions used by the routing / state-immutability harnesses below (what the cipher computes is not their subject;
@@ -120,7 +120,7 @@ pub fn canon(b: &[u8]) -> bool {
     ok
 }
 
-//@ harness name=des_frame prop=C15,C20 tier=quick bits=1088 est=100 need=4 desc="encrypt_block/decrypt_block on an arbitrary Des state and block return (no panic/overflow) and leave the instance bytes unchanged; nothing abstracted"
+//@ harness name=des_frame prop=C15,C20 tier=quick bits=1088 est=95 need=4 desc="encrypt_block/decrypt_block on an arbitrary Des state and block return (no panic/overflow) and leave the instance bytes unchanged; nothing abstracted"
 g_frame!(des_frame, Des, 8, canon);
 //@ harness name=tdes_ede3_frame prop=C15,C20 tier=quick bits=3136 stub=1 est=35 desc="encrypt/decrypt on an arbitrary TdesEde3 state: total, instance unchanged (single DES uninterpreted, keyed by the subkey array)"
 g_frame!(tdes_ede3_frame, TdesEde3, 8, canon, stubs: [(crate::des::Des::encrypt, stub_kd_enc), (crate::des::Des::decrypt, stub_kd_dec)]);
@@ -128,17 +128,17 @@ g_frame!(tdes_ede3_frame, TdesEde3, 8, canon, stubs: [(crate::des::Des::encrypt,
 g_frame!(tdes_ede2_frame, TdesEde2, 8, canon, stubs: [(crate::des::Des::encrypt, stub_kd_enc), (crate::des::Des::decrypt, stub_kd_dec)]);
 //@ harness name=tdes_eee3_frame prop=C15,C20 tier=quick bits=3136 stub=1 est=40 desc="encrypt/decrypt on an arbitrary TdesEee3 state: total, instance unchanged (single DES uninterpreted, keyed by the subkey array)"
 g_frame!(tdes_eee3_frame, TdesEee3, 8, canon, stubs: [(crate::des::Des::encrypt, stub_kd_enc), (crate::des::Des::decrypt, stub_kd_dec)]);
-//@ harness name=tdes_eee2_frame prop=C15,C20 tier=quick bits=2112 stub=1 est=30 desc="encrypt/decrypt on an arbitrary TdesEee2 state: total, instance unchanged (single DES uninterpreted, keyed by the subkey array)"
+//@ harness name=tdes_eee2_frame prop=C15,C20 tier=quick bits=2112 stub=1 est=35 desc="encrypt/decrypt on an arbitrary TdesEee2 state: total, instance unchanged (single DES uninterpreted, keyed by the subkey array)"
 g_frame!(tdes_eee2_frame, TdesEee2, 8, canon, stubs: [(crate::des::Des::encrypt, stub_kd_enc), (crate::des::Des::decrypt, stub_kd_dec)]);
 
 // C15: mixed-direction history on one instance and construction history (see generic.rs)
-//@ harness name=des_mixed prop=C15 tier=quick bits=1152 stub=1 est=135 need=6 desc="Des: on one arbitrary-state instance the history enc(x); dec(x); dec(y); enc(y) returns for dec(x) and enc(y) what a pristine instance with the same state returns; instance bytes unchanged (cipher function f uninterpreted; IP/FP/rounds real; totality with nothing abstracted is des_frame)"
+//@ harness name=des_mixed prop=C15 tier=quick bits=1152 stub=1 est=145 need=6 desc="Des: on one arbitrary-state instance the history enc(x); dec(x); dec(y); enc(y) returns for dec(x) and enc(y) what a pristine instance with the same state returns; instance bytes unchanged (cipher function f uninterpreted; IP/FP/rounds real; totality with nothing abstracted is des_frame)"
 g_mixed!(des_mixed, Des, 8, canon, stubs: [(crate::utils::f, stub_xf)]);
-//@ harness name=tdes_ede3_mixed prop=C15,C20 tier=quick bits=3200 stub=1 est=80 need=6 desc="TdesEde3: mixed-direction history enc(x); dec(x); dec(y); enc(y) agrees with a pristine instance; instance bytes unchanged (f uninterpreted)"
+//@ harness name=tdes_ede3_mixed prop=C15,C20 tier=quick bits=3200 stub=1 est=90 need=6 desc="TdesEde3: mixed-direction history enc(x); dec(x); dec(y); enc(y) agrees with a pristine instance; instance bytes unchanged (f uninterpreted)"
 g_mixed!(tdes_ede3_mixed, TdesEde3, 8, canon, stubs: [(crate::des::Des::encrypt, stub_kd_enc), (crate::des::Des::decrypt, stub_kd_dec)]);
-//@ harness name=tdes_eee2_mixed prop=C15,C20 tier=quick bits=2176 stub=1 est=80 need=5 desc="TdesEee2: mixed-direction history agrees with a pristine instance; instance bytes unchanged (f uninterpreted)"
+//@ harness name=tdes_eee2_mixed prop=C15,C20 tier=quick bits=2176 stub=1 est=85 need=5 desc="TdesEee2: mixed-direction history agrees with a pristine instance; instance bytes unchanged (f uninterpreted)"
 g_mixed!(tdes_eee2_mixed, TdesEee2, 8, canon, stubs: [(crate::des::Des::encrypt, stub_kd_enc), (crate::des::Des::decrypt, stub_kd_dec)]);
-//@ harness name=des_ctor_history prop=C15 tier=quick bits=192 est=20 desc="Des: history new(k2) in a fresh process, new(k1), new(k2), new(k3), new(k1): both constructions from k2 give the same subkeys and both from k1 do, all keys k1, k2, k3"
+//@ harness name=des_ctor_history prop=C15 tier=quick bits=192 est=25 desc="Des: history new(k2) in a fresh process, new(k1), new(k2), new(k3), new(k1): both constructions from k2 give the same subkeys and both from k1 do, all keys k1, k2, k3"
 g_ctor_history!(des_ctor_history, Des, 8, generic::none);
 //@ harness name=tdes_ede3_ctor_history prop=C15 tier=thorough bits=576 est=1500 mem=24 desc="TdesEde3: construction history new(k2); new(k1); new(k2); new(k3); new(k1) gives the same state for equal keys, all keys"
 g_ctor_history!(tdes_ede3_ctor_history, TdesEde3, 24, generic::none);
@@ -166,39 +166,39 @@ g_blocks1!(tdes_eee2_blocks_enc, TdesEee2, 8, 2, canon, enc, stubs: [(crate::des
 g_blocks1!(tdes_eee2_blocks_dec, TdesEee2, 8, 2, canon, dec, stubs: [(crate::des::Des::encrypt, stub_kd_enc), (crate::des::Des::decrypt, stub_kd_dec)]);
 
 // ---- quick forms (two block computations each, see generic.rs g_b2b1 / g_frame2)
-//@ harness name=des_b2b_enc prop=C04,C20 tier=quick bits=1152 stub=1 est=15 desc="Des encrypt: single-block b2b into an output buffer pre-filled with arbitrary bytes equals the in-place call; input unchanged; arbitrary canonical state (f uninterpreted)"
+//@ harness name=des_b2b_enc prop=C04,C20 tier=quick bits=1152 stub=1 est=20 desc="Des encrypt: single-block b2b into an output buffer pre-filled with arbitrary bytes equals the in-place call; input unchanged; arbitrary canonical state (f uninterpreted)"
 g_b2b1!(des_b2b_enc, Des, 8, canon, enc, stubs: [(crate::utils::f, stub_xf)]);
-//@ harness name=des_b2b_dec prop=C04,C20 tier=quick bits=1152 stub=1 est=15 desc="Des decrypt: as des_b2b_enc"
+//@ harness name=des_b2b_dec prop=C04,C20 tier=quick bits=1152 stub=1 est=20 desc="Des decrypt: as des_b2b_enc"
 g_b2b1!(des_b2b_dec, Des, 8, canon, dec, stubs: [(crate::utils::f, stub_xf)]);
-//@ harness name=tdes_ede3_b2b_enc prop=C04,C20 tier=quick bits=3200 stub=1 est=20 desc="TdesEde3 enc: single-block b2b into an output buffer pre-filled with arbitrary bytes equals the in-place call; input unchanged; arbitrary canonical state (single DES uninterpreted, keyed by the subkey array)"
+//@ harness name=tdes_ede3_b2b_enc prop=C04,C20 tier=quick bits=3200 stub=1 est=25 desc="TdesEde3 enc: single-block b2b into an output buffer pre-filled with arbitrary bytes equals the in-place call; input unchanged; arbitrary canonical state (single DES uninterpreted, keyed by the subkey array)"
 g_b2b1!(tdes_ede3_b2b_enc, TdesEde3, 8, canon, enc, stubs: [(crate::des::Des::encrypt, stub_kd_enc), (crate::des::Des::decrypt, stub_kd_dec)]);
-//@ harness name=tdes_ede3_frame2_enc prop=C15,C20 tier=quick bits=3136 stub=1 est=20 desc="TdesEde3 enc: the same call twice on one arbitrary-canonical-state instance gives the same result and leaves every byte of the instance unchanged (single DES uninterpreted, keyed by the subkey array)"
+//@ harness name=tdes_ede3_frame2_enc prop=C15,C20 tier=quick bits=3136 stub=1 est=25 desc="TdesEde3 enc: the same call twice on one arbitrary-canonical-state instance gives the same result and leaves every byte of the instance unchanged (single DES uninterpreted, keyed by the subkey array)"
 g_frame2!(tdes_ede3_frame2_enc, TdesEde3, 8, canon, enc, stubs: [(crate::des::Des::encrypt, stub_kd_enc), (crate::des::Des::decrypt, stub_kd_dec)]);
 //@ harness name=tdes_ede3_b2b_dec prop=C04,C20 tier=quick bits=3200 stub=1 est=25 desc="TdesEde3 dec: single-block b2b into an output buffer pre-filled with arbitrary bytes equals the in-place call; input unchanged; arbitrary canonical state (single DES uninterpreted, keyed by the subkey array)"
 g_b2b1!(tdes_ede3_b2b_dec, TdesEde3, 8, canon, dec, stubs: [(crate::des::Des::encrypt, stub_kd_enc), (crate::des::Des::decrypt, stub_kd_dec)]);
-//@ harness name=tdes_ede3_frame2_dec prop=C15,C20 tier=quick bits=3136 stub=1 est=20 desc="TdesEde3 dec: the same call twice on one arbitrary-canonical-state instance gives the same result and leaves every byte of the instance unchanged (single DES uninterpreted, keyed by the subkey array)"
+//@ harness name=tdes_ede3_frame2_dec prop=C15,C20 tier=quick bits=3136 stub=1 est=30 desc="TdesEde3 dec: the same call twice on one arbitrary-canonical-state instance gives the same result and leaves every byte of the instance unchanged (single DES uninterpreted, keyed by the subkey array)"
 g_frame2!(tdes_ede3_frame2_dec, TdesEde3, 8, canon, dec, stubs: [(crate::des::Des::encrypt, stub_kd_enc), (crate::des::Des::decrypt, stub_kd_dec)]);
 //@ harness name=tdes_ede2_b2b_enc prop=C04,C20 tier=quick bits=3200 stub=1 est=25 desc="TdesEde2 enc: single-block b2b into an output buffer pre-filled with arbitrary bytes equals the in-place call; input unchanged; arbitrary canonical state (single DES uninterpreted, keyed by the subkey array)"
 g_b2b1!(tdes_ede2_b2b_enc, TdesEde2, 8, canon, enc, stubs: [(crate::des::Des::encrypt, stub_kd_enc), (crate::des::Des::decrypt, stub_kd_dec)]);
-//@ harness name=tdes_ede2_frame2_enc prop=C15,C20 tier=quick bits=3136 stub=1 est=20 desc="TdesEde2 enc: the same call twice on one arbitrary-canonical-state instance gives the same result and leaves every byte of the instance unchanged (single DES uninterpreted, keyed by the subkey array)"
+//@ harness name=tdes_ede2_frame2_enc prop=C15,C20 tier=quick bits=3136 stub=1 est=35 desc="TdesEde2 enc: the same call twice on one arbitrary-canonical-state instance gives the same result and leaves every byte of the instance unchanged (single DES uninterpreted, keyed by the subkey array)"
 g_frame2!(tdes_ede2_frame2_enc, TdesEde2, 8, canon, enc, stubs: [(crate::des::Des::encrypt, stub_kd_enc), (crate::des::Des::decrypt, stub_kd_dec)]);
-//@ harness name=tdes_ede2_b2b_dec prop=C04,C20 tier=quick bits=3200 stub=1 est=25 desc="TdesEde2 dec: single-block b2b into an output buffer pre-filled with arbitrary bytes equals the in-place call; input unchanged; arbitrary canonical state (single DES uninterpreted, keyed by the subkey array)"
+//@ harness name=tdes_ede2_b2b_dec prop=C04,C20 tier=quick bits=3200 stub=1 est=20 desc="TdesEde2 dec: single-block b2b into an output buffer pre-filled with arbitrary bytes equals the in-place call; input unchanged; arbitrary canonical state (single DES uninterpreted, keyed by the subkey array)"
 g_b2b1!(tdes_ede2_b2b_dec, TdesEde2, 8, canon, dec, stubs: [(crate::des::Des::encrypt, stub_kd_enc), (crate::des::Des::decrypt, stub_kd_dec)]);
-//@ harness name=tdes_ede2_frame2_dec prop=C15,C20 tier=quick bits=3136 stub=1 est=20 desc="TdesEde2 dec: the same call twice on one arbitrary-canonical-state instance gives the same result and leaves every byte of the instance unchanged (single DES uninterpreted, keyed by the subkey array)"
+//@ harness name=tdes_ede2_frame2_dec prop=C15,C20 tier=quick bits=3136 stub=1 est=35 desc="TdesEde2 dec: the same call twice on one arbitrary-canonical-state instance gives the same result and leaves every byte of the instance unchanged (single DES uninterpreted, keyed by the subkey array)"
 g_frame2!(tdes_ede2_frame2_dec, TdesEde2, 8, canon, dec, stubs: [(crate::des::Des::encrypt, stub_kd_enc), (crate::des::Des::decrypt, stub_kd_dec)]);
-//@ harness name=tdes_eee3_b2b_enc prop=C04,C20 tier=quick bits=3200 stub=1 est=25 desc="TdesEee3 enc: single-block b2b into an output buffer pre-filled with arbitrary bytes equals the in-place call; input unchanged; arbitrary canonical state (single DES uninterpreted, keyed by the subkey array)"
+//@ harness name=tdes_eee3_b2b_enc prop=C04,C20 tier=quick bits=3200 stub=1 est=20 desc="TdesEee3 enc: single-block b2b into an output buffer pre-filled with arbitrary bytes equals the in-place call; input unchanged; arbitrary canonical state (single DES uninterpreted, keyed by the subkey array)"
 g_b2b1!(tdes_eee3_b2b_enc, TdesEee3, 8, canon, enc, stubs: [(crate::des::Des::encrypt, stub_kd_enc), (crate::des::Des::decrypt, stub_kd_dec)]);
-//@ harness name=tdes_eee3_frame2_enc prop=C15,C20 tier=quick bits=3136 stub=1 est=20 desc="TdesEee3 enc: the same call twice on one arbitrary-canonical-state instance gives the same result and leaves every byte of the instance unchanged (single DES uninterpreted, keyed by the subkey array)"
+//@ harness name=tdes_eee3_frame2_enc prop=C15,C20 tier=quick bits=3136 stub=1 est=35 desc="TdesEee3 enc: the same call twice on one arbitrary-canonical-state instance gives the same result and leaves every byte of the instance unchanged (single DES uninterpreted, keyed by the subkey array)"
 g_frame2!(tdes_eee3_frame2_enc, TdesEee3, 8, canon, enc, stubs: [(crate::des::Des::encrypt, stub_kd_enc), (crate::des::Des::decrypt, stub_kd_dec)]);
-//@ harness name=tdes_eee3_b2b_dec prop=C04,C20 tier=quick bits=3200 stub=1 est=20 desc="TdesEee3 dec: single-block b2b into an output buffer pre-filled with arbitrary bytes equals the in-place call; input unchanged; arbitrary canonical state (single DES uninterpreted, keyed by the subkey array)"
+//@ harness name=tdes_eee3_b2b_dec prop=C04,C20 tier=quick bits=3200 stub=1 est=25 desc="TdesEee3 dec: single-block b2b into an output buffer pre-filled with arbitrary bytes equals the in-place call; input unchanged; arbitrary canonical state (single DES uninterpreted, keyed by the subkey array)"
 g_b2b1!(tdes_eee3_b2b_dec, TdesEee3, 8, canon, dec, stubs: [(crate::des::Des::encrypt, stub_kd_enc), (crate::des::Des::decrypt, stub_kd_dec)]);
-//@ harness name=tdes_eee3_frame2_dec prop=C15,C20 tier=quick bits=3136 stub=1 est=20 desc="TdesEee3 dec: the same call twice on one arbitrary-canonical-state instance gives the same result and leaves every byte of the instance unchanged (single DES uninterpreted, keyed by the subkey array)"
+//@ harness name=tdes_eee3_frame2_dec prop=C15,C20 tier=quick bits=3136 stub=1 est=35 desc="TdesEee3 dec: the same call twice on one arbitrary-canonical-state instance gives the same result and leaves every byte of the instance unchanged (single DES uninterpreted, keyed by the subkey array)"
 g_frame2!(tdes_eee3_frame2_dec, TdesEee3, 8, canon, dec, stubs: [(crate::des::Des::encrypt, stub_kd_enc), (crate::des::Des::decrypt, stub_kd_dec)]);
-//@ harness name=tdes_eee2_b2b_enc prop=C04,C20 tier=quick bits=3200 stub=1 est=25 desc="TdesEee2 enc: single-block b2b into an output buffer pre-filled with arbitrary bytes equals the in-place call; input unchanged; arbitrary canonical state (single DES uninterpreted, keyed by the subkey array)"
+//@ harness name=tdes_eee2_b2b_enc prop=C04,C20 tier=quick bits=3200 stub=1 est=20 desc="TdesEee2 enc: single-block b2b into an output buffer pre-filled with arbitrary bytes equals the in-place call; input unchanged; arbitrary canonical state (single DES uninterpreted, keyed by the subkey array)"
 g_b2b1!(tdes_eee2_b2b_enc, TdesEee2, 8, canon, enc, stubs: [(crate::des::Des::encrypt, stub_kd_enc), (crate::des::Des::decrypt, stub_kd_dec)]);
-//@ harness name=tdes_eee2_frame2_enc prop=C15,C20 tier=quick bits=3136 stub=1 est=20 desc="TdesEee2 enc: the same call twice on one arbitrary-canonical-state instance gives the same result and leaves every byte of the instance unchanged (single DES uninterpreted, keyed by the subkey array)"
+//@ harness name=tdes_eee2_frame2_enc prop=C15,C20 tier=quick bits=3136 stub=1 est=35 desc="TdesEee2 enc: the same call twice on one arbitrary-canonical-state instance gives the same result and leaves every byte of the instance unchanged (single DES uninterpreted, keyed by the subkey array)"
 g_frame2!(tdes_eee2_frame2_enc, TdesEee2, 8, canon, enc, stubs: [(crate::des::Des::encrypt, stub_kd_enc), (crate::des::Des::decrypt, stub_kd_dec)]);
-//@ harness name=tdes_eee2_b2b_dec prop=C04,C20 tier=quick bits=3200 stub=1 est=20 desc="TdesEee2 dec: single-block b2b into an output buffer pre-filled with arbitrary bytes equals the in-place call; input unchanged; arbitrary canonical state (single DES uninterpreted, keyed by the subkey array)"
+//@ harness name=tdes_eee2_b2b_dec prop=C04,C20 tier=quick bits=3200 stub=1 est=25 desc="TdesEee2 dec: single-block b2b into an output buffer pre-filled with arbitrary bytes equals the in-place call; input unchanged; arbitrary canonical state (single DES uninterpreted, keyed by the subkey array)"
 g_b2b1!(tdes_eee2_b2b_dec, TdesEee2, 8, canon, dec, stubs: [(crate::des::Des::encrypt, stub_kd_enc), (crate::des::Des::decrypt, stub_kd_dec)]);
-//@ harness name=tdes_eee2_frame2_dec prop=C15,C20 tier=quick bits=3136 stub=1 est=20 desc="TdesEee2 dec: the same call twice on one arbitrary-canonical-state instance gives the same result and leaves every byte of the instance unchanged (single DES uninterpreted, keyed by the subkey array)"
+//@ harness name=tdes_eee2_frame2_dec prop=C15,C20 tier=quick bits=3136 stub=1 est=30 desc="TdesEee2 dec: the same call twice on one arbitrary-canonical-state instance gives the same result and leaves every byte of the instance unchanged (single DES uninterpreted, keyed by the subkey array)"
 g_frame2!(tdes_eee2_frame2_dec, TdesEee2, 8, canon, dec, stubs: [(crate::des::Des::encrypt, stub_kd_enc), (crate::des::Des::decrypt, stub_kd_dec)]);
